@@ -12,6 +12,8 @@ fn main() {
     }
 
     println!("cargo:rerun-if-env-changed=CFG_RELEASE_CHANNEL");
+    // `--cfg rustfmt_verif` enables the fault points in src/verif_hooks.rs.
+    println!("cargo:rustc-check-cfg=cfg(rustfmt_verif)");
 
     let out_dir = PathBuf::from(env::var_os("OUT_DIR").unwrap());
 
